@@ -574,8 +574,8 @@ Proof.
   intros F H. pose proof (G_step _ _ _ _ F H) as Gs. destruct o; cbn [step] in H.
   - apply (TE_nil _ _ F Gs). unfold on_new_worker in H. inversion H; subst. reflexivity.
   - destruct (find_proc _ w); [|discriminate]. eapply TE_on_remove_worker; eassumption.
-  - apply (TE_nil _ _ F Gs). eapply handle_submit_array_tids; exact H.
-  - destruct (bad_graph_rq _ _); [inversion H; subst; apply TE_same; reflexivity|]. apply (TE_nil _ _ F Gs). eapply handle_submit_graph_tids; exact H.
+  - destruct (bad_submit_lengths _ _); [inversion H; subst; apply TE_same; reflexivity|]. apply (TE_nil _ _ F Gs). eapply handle_submit_array_tids; exact H.
+  - destruct (bad_graph_rq _ _); [inversion H; subst; apply TE_same; reflexivity|]. destruct (dead_dep _ _ _); [inversion H; subst; apply TE_same; reflexivity|]. apply (TE_nil _ _ F Gs). eapply handle_submit_graph_tids; exact H.
   - apply (TE_nil _ _ F Gs). unfold handle_open in H. inversion H; subst. reflexivity.
   - apply (TE_nil _ _ F Gs). unfold handle_close in H.
     destruct (find_job _ j) as [jb|]; [|inversion H; subst; reflexivity].
